@@ -216,11 +216,22 @@ impl<'a> LoweringContext<'a> {
         }
     }
 
+    /// A struct declared anywhere in the program: at top level, in a function body or in a
+    /// nested block, before or after the place that names it.
     fn is_struct_name(&self, name: &str) -> bool {
-        self.structs.iter().any(|s| s.name == name)
-            || self.program.stmts.iter().any(|stmt| {
-                matches!(&stmt.kind, TypedStmtKind::StructDecl { name: n, .. } if n == name)
-            })
+        self.structs.iter().any(|s| s.name == name) || declares_struct(&self.program.stmts, name)
+    }
+
+    /// Type of a struct field. A field whose declared type is a struct name stays a reference
+    /// to that struct even when no such struct is declared: the layout pass then reports it
+    /// (`LayoutError::UnresolvedStruct`) instead of the field silently becoming an `i64`.
+    fn lower_field_type(&self, ty: &InferType) -> AirType {
+        match ty {
+            InferType::Struct(name) if !self.type_params_map.iter().any(|(n, _)| n == name) => {
+                AirType::Struct(name.clone())
+            }
+            other => self.lower_type_from_infer(other),
+        }
     }
 
     fn gc_mode_for_function(&self, func: &TypedFunction) -> GcMode {
@@ -236,7 +247,12 @@ impl<'a> LoweringContext<'a> {
     // ========================================================================
 
     fn lower_program(&mut self) {
-        for stmt in &self.program.stmts {
+        // top-level statements other than functions and lets are not lowered, so the structs
+        // declared inside top-level blocks are taken from there as well; the ones declared
+        // in function bodies are lowered with their function (its type parameters in scope)
+        let mut decls = Vec::new();
+        toplevel_struct_decls(&self.program.stmts, &mut decls);
+        for stmt in decls {
             if let TypedStmtKind::StructDecl {
                 name,
                 type_params,
@@ -269,7 +285,7 @@ impl<'a> LoweringContext<'a> {
             .iter()
             .map(|(fname, fty)| AirStructField {
                 name: fname.clone(),
-                ty: self.lower_type_from_infer(fty),
+                ty: self.lower_field_type(fty),
                 offset: None,
             })
             .collect();
@@ -1651,5 +1667,55 @@ fn lower_unop(op: &aelys_syntax::UnaryOp) -> UnOp {
         aelys_syntax::UnaryOp::Neg => UnOp::Neg,
         aelys_syntax::UnaryOp::Not => UnOp::Not,
         aelys_syntax::UnaryOp::BitNot => UnOp::BitNot,
+    }
+}
+
+/// Is a struct called `name` declared in `stmts`, at any nesting depth?
+fn declares_struct(stmts: &[TypedStmt], name: &str) -> bool {
+    stmts.iter().any(|stmt| match &stmt.kind {
+        TypedStmtKind::StructDecl { name: n, .. } => n == name,
+        TypedStmtKind::Function(func) => declares_struct(&func.body, name),
+        TypedStmtKind::Block(inner) => declares_struct(inner, name),
+        TypedStmtKind::If {
+            then_branch,
+            else_branch,
+            ..
+        } => {
+            declares_struct(std::slice::from_ref(then_branch), name)
+                || else_branch
+                    .as_ref()
+                    .is_some_and(|e| declares_struct(std::slice::from_ref(e), name))
+        }
+        TypedStmtKind::While { body, .. }
+        | TypedStmtKind::For { body, .. }
+        | TypedStmtKind::ForEach { body, .. } => declares_struct(std::slice::from_ref(body), name),
+        _ => false,
+    })
+}
+
+/// The struct declarations of the top level and of the blocks nested in top-level statements
+/// (not those inside function bodies), in source order.
+fn toplevel_struct_decls<'p>(stmts: &'p [TypedStmt], out: &mut Vec<&'p TypedStmt>) {
+    for stmt in stmts {
+        match &stmt.kind {
+            TypedStmtKind::StructDecl { .. } => out.push(stmt),
+            TypedStmtKind::Block(inner) => toplevel_struct_decls(inner, out),
+            TypedStmtKind::If {
+                then_branch,
+                else_branch,
+                ..
+            } => {
+                toplevel_struct_decls(std::slice::from_ref(then_branch), out);
+                if let Some(e) = else_branch {
+                    toplevel_struct_decls(std::slice::from_ref(e), out);
+                }
+            }
+            TypedStmtKind::While { body, .. }
+            | TypedStmtKind::For { body, .. }
+            | TypedStmtKind::ForEach { body, .. } => {
+                toplevel_struct_decls(std::slice::from_ref(body), out)
+            }
+            _ => {}
+        }
     }
 }
